@@ -10,7 +10,7 @@ the rules look at.  Anything not recognised is left as the call it was (the clos
     Result:  map  map_err  and_then  or_else  unwrap_or_else  is_ok_and  is_err_and  map_or
     Option:  map  and_then  or_else  ok_or_else  unwrap_or_else  is_some_and  is_none_or  map_or
     bool:    then
-    Iterator (consumers, as loops over `next`):  for_each  try_for_each  any  all  find_map
+    Iterator (consumers, as loops over `next`):  for_each  try_for_each  any  all  find_map  fold  try_fold
 """
 import copy
 
@@ -134,7 +134,16 @@ def _callee_of(fx, fn, t, ai):
         return None
     ty = fn.locals[pl["l"]]["ty"]
     fv = [x for x in (t.get("fn") or {}).get("fnvals", []) if x in fx.fns and fx.fns[x].is_closure]
-    if len(fv) != 1 or "closure" not in ty:
+    if "closure" not in ty:
+        return None
+    if len(fv) > 1:
+        # several closures are mentioned by the call's generic arguments (an adaptor's closure is part of the
+        # iterator's type): the one passed here is the one whose definition span the argument's type names
+        def tag(g):
+            sp = g.span
+            return "closure@%s:%d:%d" % (sp.get("file"), sp.get("line"), sp.get("col", 0))
+        fv = [x for x in fv if tag(fx.fns[x]) in ty]
+    if len(fv) != 1:
         return None
     return {"closure": True, "path": fv[0], "op": a}
 
@@ -325,6 +334,70 @@ def _expand_one(fx, fn, bi, t, blocks, locals_):
         return True
 
     # ---------------- Iterator consumers ----------------
+    if o in (I + "fold", I + "try_fold") and len(args) == 3:
+        m = o[len(I):]
+        cal = _callee_of(fx, fn, t, 2)
+        a0 = args[0]
+        pl = a0.get("mv") or a0.get("cp")
+        if cal is None or pl is None:
+            return False
+        ity = tys[0] if tys else "?"
+        by_ref = ity.startswith("&mut ")
+        b0 = B.block()
+        if by_ref:
+            itref = B.local(ity)
+            B.stmt(b0, itref, {"k": "use", "op": a0})
+            base_ty = ity[5:]
+        else:
+            it = B.local(ity)
+            B.stmt(b0, it, {"k": "use", "op": a0})
+            base_ty = ity
+        aty = tys[1] if len(tys) > 1 else "?"
+        acc = B.local(aty)
+        B.stmt(b0, acc, {"k": "use", "op": args[1]})
+        item = f.get("iter_item") or t.get("iter_item") or "?"
+        head = B.block()
+        B.goto(b0, head)
+        nxt = B.local("%s<%s>" % (OPT, item))
+        h2 = B.block()
+        if by_ref:
+            r = B.local(ity)
+            B.stmt(head, r, {"k": "ref", "mut": True, "pl": {"l": itref, "p": ["deref"]}})
+        else:
+            r = B.local("&mut " + ity)
+            B.stmt(head, r, {"k": "ref", "mut": True, "pl": {"l": it}})
+        B.blocks[head]["term"] = {
+            "k": "call", "span": t["span"],
+            "fn": {"orig": NEXT, "path": "<%s as core::iter::traits::iterator::Iterator>::next" % base_ty, "kind": "item",
+                   "local": False, "trait": "core::iter::traits::iterator::Iterator", "iter_item": item},
+            "args": [{"mv": {"l": r}}], "arg_tys": ["&mut " + base_ty], "dest": {"l": nxt},
+            "dest_ty": "%s<%s>" % (OPT, item), "target": h2, "iter_item": item}
+        body, done = B.block(), B.block()
+        B.switch_discr(h2, nxt, OPT, OPT_V, "%s<%s>" % (OPT, item), {"Some": body, "None": done})
+        x = B.local(item)
+        B.payload(body, x, nxt, "Some")
+        rt = _ret_ty(fx, cal)
+        if m == "fold":
+            B.call_fnlike(body, cal, [{"mv": {"l": acc}}, {"mv": {"l": x}}], [aty, item], acc, aty, head)
+            B.stmt(done, dest, {"k": "use", "op": {"mv": {"l": acc}}})
+            B.goto(done, end)
+        else:
+            rr = B.local(rt)
+            k = B.block()
+            B.call_fnlike(body, cal, [{"mv": {"l": acc}}, {"mv": {"l": x}}], [aty, item], rr, rt, k)
+            rh, _ga = split_generics(rt)
+            adt, vs, okv, errv = (RES, RES_V, "Ok", "Err") if rh == RES else ((OPT, OPT_V, "Some", "None") if rh == OPT else (CF, CF_V, "Continue", "Break"))
+            cont, brk = B.block(), B.block()
+            B.switch_discr(k, rr, adt, vs, rt, {okv: cont, errv: brk})
+            B.payload(cont, acc, rr, okv)
+            B.goto(cont, head)
+            B.stmt(brk, dest, {"k": "use", "op": {"mv": {"l": rr}}})
+            B.goto(brk, end)
+            B.wrap(done, dest, adt, okv, {"mv": {"l": acc}})
+            B.goto(done, end)
+        blocks[bi]["term"] = {"k": "goto", "target": b0, "span": t["span"], "expanded": o}
+        return True
+
     if o in (I + "for_each", I + "try_for_each", I + "any", I + "all", I + "find_map") and len(args) == 2:
         m = o[len(I):]
         cal = _callee_of(fx, fn, t, 1)
